@@ -342,6 +342,19 @@ def getForkNew (names : List Bytes) (index : Bytes) : Option Nat :=
   | some i => if nameMatches (names.getD i []) index then some i else findName names index
   | none => findName names index
 
+/-! ## Node.find
+
+`Node.find(name)` walks the node tree (children in Go map order) and returns
+the first node whose fully-qualified id is `top.fqname + "." + name` or `name`
+itself.  The model takes the nodes' fqids as a list in *any* order. -/
+
+def nodeMatches (top fqid name : Bytes) : Bool := fqid == top ++ cDot :: name || fqid == name
+
+def findNode (top : Bytes) (fqids : List Bytes) (name : Bytes) : Option Nat :=
+  match fqids with
+  | [] => none
+  | f :: rest => if nodeMatches top f name then some 0 else (findNode top rest name).map (· + 1)
+
 /-- `Metadata.cache`: a notification is recorded iff it carries the metadata
 object's current uniquifier. -/
 def cacheAccepts (own seen : Bytes) : Bool := own == seen
